@@ -135,7 +135,7 @@ def check_exec(ctx, name, scn, res, prefix, cost):
 
 def run(ctx):
     bound = 2 if ctx.quick else 3
-    budget = 45 if ctx.quick else 1500
+    budget = float(os.environ.get("GV_SCHED_BUDGET", 45 if ctx.quick else 1500))
     horizon = 140
     ctx.bound("deviation_bound_requested", bound)
     ctx.bound("step_horizon", horizon)
